@@ -298,6 +298,57 @@ def check(ctx):
     ctx.decline("numerical size of the per-cell residual; interpolated cross-section currents")
 
 
+def cache_starts_with_boundary(ctx):
+    """R01.4 (initial state of the invariant the eight paths rely on): the change-detection cache says what mu_boundary holds.  Both
+    must therefore be created together, per solver: the constructor assigns `self.mu_boundary = zeros(...)` and
+    `self.terminal_current_densities = {name: 0 ...}`.  A cache that is not (re)created by the constructor - a class attribute, a
+    module table - outlives the boundary array it describes: the next solver starts with zeros on its boundary and a cache that says
+    'already written'."""
+    repo = ctx.repo
+    fi = repo.func(SOLVER, "TDGLSolver.__init__")
+    found = {"terminal_current_densities": [], "mu_boundary": []}
+    for n in own_nodes(fi.node):
+        if isinstance(n, (ast.Assign, ast.AnnAssign)):
+            tg = n.targets if isinstance(n, ast.Assign) else [n.target]
+            for t in tg:
+                if isinstance(t, ast.Attribute) and isinstance(t.value, ast.Name) and t.value.id == "self" and t.attr in found and n.value is not None:
+                    found[t.attr].append(n.value)
+
+    def zero_dict(v):
+        if isinstance(v, ast.DictComp):
+            return isinstance(v.value, ast.Constant) and v.value.value in (0, 0.0)
+        if isinstance(v, ast.Dict):
+            return all(isinstance(x, ast.Constant) and x.value in (0, 0.0) for x in v.values)
+        if isinstance(v, ast.Call) and norm(v.func) in ("dict.fromkeys",):
+            return len(v.args) == 2 and isinstance(v.args[1], ast.Constant) and v.args[1].value in (0, 0.0)
+        if isinstance(v, ast.Call) and norm(v.func) == "dict" and len(v.args) == 1:
+            return zero_dict(v.args[0]) or (isinstance(v.args[0], (ast.GeneratorExp, ast.ListComp)) and isinstance(v.args[0].elt, ast.Tuple)
+                                            and len(v.args[0].elt.elts) == 2 and isinstance(v.args[0].elt.elts[1], ast.Constant) and v.args[0].elt.elts[1].value in (0, 0.0))
+        return False
+
+    from ..dataflow import assignments
+
+    def zeros(v, depth=0):
+        if isinstance(v, ast.Call) and norm(v.func).split(".")[-1] in ("zeros", "zeros_like"):
+            return True
+        if isinstance(v, ast.Call) and norm(v.func).split(".")[-1] in ("asarray", "asnumpy", "array") and len(v.args) >= 1 and depth < 4:
+            return zeros(v.args[0], depth + 1)          # host/device transfer of the same zeros
+        if isinstance(v, ast.Name) and depth < 4:
+            defs = [d for _, d in assignments(fi.node).get(v.id, []) if d is not None and not (isinstance(d, ast.Call) and any(
+                isinstance(a, ast.Name) and a.id == v.id for a in d.args))]
+            return bool(defs) and all(zeros(d, depth + 1) for d in defs)
+        return False
+    c_ok = bool(found["terminal_current_densities"]) and all(zero_dict(v) for v in found["terminal_current_densities"])
+    b_ok = bool(found["mu_boundary"]) and all(zeros(v) for v in found["mu_boundary"])
+    ctx.ob("R01.4", "the change-detection cache and the boundary array it describes are created together by the constructor (all zero)", c_ok and b_ok,
+           detail={k: [norm(v)[:80] for v in vs] for k, vs in found.items()}, where=fi.fq, construct="initial agreement of terminal_current_densities and mu_boundary",
+           loc=loc(fi, fi.node),
+           message="the constructor does not create " + ("the cache terminal_current_densities as an all-zero table" if not c_ok else "mu_boundary as zeros")
+                   + f" (found: { {k: [norm(v)[:60] for v in vs] for k, vs in found.items()} })",
+           consequence="a solver whose boundary array is all zero starts with a cache that claims the terminal densities are already written (e.g. a table "
+                       "shared by all solvers of the process: the second solve with the same currents injects nothing, div J = 0 in the terminal cells)")
+
+
 def terminal_density(ctx):
     """Interpret update_mu_boundary for three terminals over every outcome of the change-detection test."""
     import itertools
@@ -367,6 +418,7 @@ def terminal_density(ctx):
                            "wrong length, or a terminal left at its previous value when another terminal's current did not change)",
                witness={"change_pattern": desc, "problems": bad})
     ctx.note("update_mu_boundary_paths", n_paths)
+    cache_starts_with_boundary(ctx)
     repo = ctx.repo
     # terminal length and boundary edge set agree (Device.terminal_info)
     ft = repo.func(DEVICE, "Device.terminal_info")
